@@ -24,6 +24,7 @@ static int edge_cmp (const pixman_line_fixed_t *l, int64_t y, int64_t s, int64_t
 {
     i128 dy = (i128)l->p2.y - l->p1.y, dx = (i128)l->p2.x - l->p1.x;
     /* x(y) - s = p1.x - s + (y - p1.y) dx / dy */
+    if (dy == 0) { if (approx_x) *approx_x = l->p1.x; return l->p1.x < s ? -1 : l->p1.x > s ? 1 : 0; }     /* a horizontal 'edge' (degenerate triangle side): no row is bounded by it */
     i128 num = ((i128)l->p1.x - s) * dy + ((i128)y - l->p1.y) * dx;
     if (approx_x) *approx_x = (int64_t)((i128)l->p1.x + ((i128)y - l->p1.y) * dx / dy);
     if (dy < 0) num = -num;
@@ -288,6 +289,9 @@ static void composite_case (vf_rng *r)
     rq_request q1, q2; memset (&q1, 0, sizeof q1);
     unsigned prof = RQP_NO_INDEXED | RQP_NO_ALPHAMAP | RQP_NO_ACCESSORS | RQP_NARROW_ONLY | RQP_NO_GRADIENT;   /* gradient walkers step in single precision from the start of each span: not reproducible across different span origins */
     rq_gen_image (r, &q1.dst, 2, prof); rq_gen_image (r, &q1.src, 0, prof);
+    /* a projective source whose w changes sign inside the destination has coordinates outside 16.16: composite32 refuses such a request depending on
+     * the rectangle it is asked for, and the library's own route and the reference route ask for different rectangles - outside the statement */
+    if (q1.src.tr_class == TR_PROJECTIVE) rq_gen_transform (r, &q1.src, TR_AFFINE, 0);
     int want_direct = vf_chance (r, 1, 4);
     pixman_format_code_t mf = pick_alpha (r);
     pixman_op_t op = vf_chance (r, 1, 2) ? PIXMAN_OP_OVER : (pixman_op_t)(vf_next (r) % 14);
